@@ -7,6 +7,12 @@ behaviour outside every property, or a hole).   tools/automutate.py [-n N] [-see
 Scratch worktrees live outside /repo and /verif and are removed."""
 import json, os, re, random, subprocess, sys, tempfile, shutil, concurrent.futures
 ROOT = "/verif"
+import atexit as _ae, shutil as _sh, tempfile as _tf
+# private copy of the verifier, so that a rebuild of bin/govc during a long run cannot mix engines
+GOVC = os.environ.get("GOVC_BIN")
+if not GOVC:
+    _d = _tf.mkdtemp(prefix="govc-bin-"); GOVC = os.path.join(_d, "govc")
+    _sh.copy2(os.path.join(ROOT, "bin", "govc"), GOVC); _ae.register(lambda: _sh.rmtree(_d, ignore_errors=True))
 ENV = dict(os.environ, GOFLAGS="-mod=mod", GOPROXY="off", GOSUMDB="off", GOTOOLCHAIN="local")
 args = sys.argv[1:]
 N = 120; seed = 1; files = []
@@ -14,10 +20,12 @@ i = 0
 while i < len(args):
     if args[i] == "-n": N = int(args[i+1]); i += 2
     elif args[i] == "-seed": seed = int(args[i+1]); i += 2
+    elif args[i] == "-args": i += 1
     else: files.append(args[i]); i += 1
 if not files:
     files = [f for f in sorted(os.listdir("/repo")) if f.endswith(".go") and not f.endswith("_test.go") and not f.startswith("verif_contracts") and f not in ("dialer.go",)]
-contracted = subprocess.run([ROOT+"/bin/govc", "list"], capture_output=True, text=True).stdout.split("\n")
+argmode = "-args" in sys.argv
+contracted = subprocess.run([GOVC, "list"], capture_output=True, text=True).stdout.split("\n")
 contracted = [c for c in contracted if c]
 OPS = [(r'==', '!='), (r'!=', '=='), (r'<=', '<'), (r'>=', '>'), (r'(?<![<>=!])<(?![<=-])', '<='), (r'(?<![<>=!-])>(?![>=])', '>='),
        (r'&&', '||'), (r'\|\|', '&&'), (r'\btrue\b', 'false'), (r'\bfalse\b', 'true'), (r'\+ 1\b', '- 1'), (r'- 1\b', '+ 1'),
@@ -45,7 +53,24 @@ for f in files:
         if re.match(r'^[\w\.\[\]\*\(\), ]+(:?=|\+=|\*=|\+\+|--)', s) or re.match(r'^(defer )?[\w\.]+\([^{]*\)$', s):
             if not s.startswith("return") and ":=" not in s:
                 cands.append((f, k, "delete", l, None, fn, names))
-        for pat, rep in OPS:
+        # argument perturbation: innermost call argument lists on the line
+        if argmode and not s.startswith("func ") and not s.startswith("return func"):
+            for m in re.finditer(r'(?<=[\w\])])\(([^()]*)\)', l):
+                args = [a for a in m.group(1).split(",")]
+                if not m.group(1).strip() or any('"' in a for a in args): continue
+                vs = []
+                for i in range(len(args) - 1):
+                    sw = args[:]; sw[i], sw[i+1] = " " + sw[i+1].strip(), " " + sw[i].strip()
+                    sw[0] = sw[0].strip(); vs.append(("swapargs", sw))
+                for i, a in enumerate(args):
+                    a0 = a.strip()
+                    if re.match(r'^[A-Za-z_][\w\.]*$', a0):
+                        for rep in ("nil", "0", a0 + "[1:]", a0 + "+1", "!" + a0):
+                            r2 = args[:]; r2[i] = (" " if i else "") + rep; vs.append(("arg:" + rep.replace(a0, "x"), r2))
+                for op, v in vs:
+                    nl = l[:m.start(1)] + ",".join(v) + l[m.end(1):]
+                    if nl != l: cands.append((f, k, op, l, nl, fn, names))
+        for pat, rep in ([] if argmode else OPS):
             for m in re.finditer(pat, l):
                 if '"' in l[:m.start()] and l[:m.start()].count('"') % 2 == 1: continue
                 nl = l[:m.start()] + rep + l[m.end():]
@@ -66,22 +91,25 @@ def run(c):
         if b.returncode != 0: return None
         t = subprocess.run(["go", "test", "-vet=off", "-count=1", "-timeout", "120s", "."], cwd=wt, env=ENV, capture_output=True, text=True)
         if t.returncode != 0: return ("tests", c)
-        r = subprocess.run([ROOT+"/bin/govc", "func", "-repo", wt, "-timeout", "20"] + names, capture_output=True, text=True, timeout=1200)
-        killed = r.returncode != 0 or "FAIL" in r.stdout or "PROBLEM" in r.stdout or "UNDECIDED" in r.stdout
-        first = [l.strip()[:160] for l in r.stdout.splitlines() if "FAIL" in l or "PROBLEM" in l or "UNDECIDED" in l][:1]
-        return ("killed" if killed else "SURVIVED", c, first)
+        r = subprocess.run([GOVC, "func", "-repo", wt, "-timeout", "20"] + names, capture_output=True, text=True, timeout=1200)
+        fails = [l for l in r.stdout.splitlines() if l.lstrip().startswith("FAIL")]
+        real = [l for l in fails if "#cover." not in l]
+        soft = [l for l in r.stdout.splitlines() if "PROBLEM" in l or "UNDECIDED" in l] + [l for l in fails if "#cover." in l]
+        first = [l.strip()[:160] for l in (real or soft)][:1]
+        # a failed obligation is a detection; only a vacuity alarm or an unevaluable contract is "undecided" (not a detection)
+        return ("killed" if real else ("undecided" if soft or r.returncode != 0 else "SURVIVED"), c, first)
     except Exception as e:
         return ("error", c, str(e)[:100])
     finally:
         subprocess.run(["git", "-C", "/repo", "worktree", "remove", "--force", wt], capture_output=True); shutil.rmtree(wt, ignore_errors=True)
-stats = {"tests": 0, "killed": 0, "SURVIVED": 0, "error": 0}
+stats = {"tests": 0, "killed": 0, "undecided": 0, "SURVIVED": 0, "error": 0}
 out = []
 done = 0
 with concurrent.futures.ThreadPoolExecutor(4) as ex:
     for r in ex.map(run, cands):
         if r is None: continue
         stats[r[0]] += 1
-        if r[0] in ("killed", "SURVIVED", "error"):
+        if r[0] in ("killed", "undecided", "SURVIVED", "error"):
             f, k, op, old, new, fn, names = r[1]
             rec = {"verdict": r[0], "file": f, "line": k+1, "op": op, "old": old.strip(), "new": (new or "<deleted>").strip(), "func": fn, "first": (r[2] if len(r) > 2 else "")}
             out.append(rec)
